@@ -314,11 +314,112 @@ fn run(case: &Case, cx: &mut Cx) -> CaseResult {
     Ok(())
 }
 
+/// Scale probes (see probes.rs): damage inside an index of more than 10 000 hunks, and a
+/// bit flip inside a block of several MiB.
+fn enumerate(_tier: Tier, idx: u32, of: u32, cx: &mut Cx) -> CaseResult {
+    if !crate::probes::mine(idx, of) {
+        return Ok(());
+    }
+    // --- many hunks
+    let (opts, tree) = crate::probes::many_hunks_tree(10_012);
+    let sub = cx.dir("many-hunks");
+    std::fs::create_dir_all(sub.join("r")).unwrap();
+    let w = World::new(&sub, &tree);
+    let b = ops::backup(&w.arch, &None, &w.src, opts, &[]);
+    ensure!(!ops::backup_reported_error(&b), "C10/probe-setup", "{}", b.describe());
+    let pristine = sub.join("pristine");
+    copy_dir(&w.arch, &pristine);
+    let pre = format::scan(&pristine);
+    let band = &pre.bands[&0];
+    ensure!(band.hunks.len() > 10_001, "C10/harness/probe-too-small", "{} hunks", band.hunks.len());
+    let mut n = 0u32;
+    for (hunk_no, d) in [(9_999usize, Dmg::Delete), (10_000, Dmg::Delete), (10_001, Dmg::Garbage), (5, Dmg::Truncate0)] {
+        crate::engine::heartbeat();
+        let f = band.hunks[hunk_no].relpath.clone();
+        let lost: Vec<String> = band.hunks[hunk_no].entries.as_ref().unwrap().iter().map(|e| e.apath.clone()).collect();
+        crate::engine::force_remove(&w.arch);
+        copy_dir(&pristine, &w.arch);
+        ensure!(damage::apply(&w.arch, &f, d), "C10/harness/probe", "damage did not apply");
+        n += 1;
+        let dest = sub.join("r").join(format!("p{n}"));
+        let r = ops::restore(&w.arch, &None, &dest, &Sel::Band(0), None, &[], false);
+        no_panic(&r, "restore", &f, d)?;
+        ensure!(
+            r.reported_error(),
+            format!("C10/lost-file-not-reported/hunk/{}/probe-many-hunks", d.name()),
+            "{f} ({}) holds {lost:?}; restore of the 10 000-hunk version reported nothing",
+            d.name()
+        );
+        let snap = tree::snapshot(&dest);
+        let mut want = tree::expected(&tree);
+        for l in &lost {
+            want.remove(l);
+        }
+        let got: tree::Snapshot = snap.into_iter().filter(|(p, _)| !lost.contains(p)).collect();
+        crate::engine::force_remove(&dest);
+        if let Some((field, msg)) = tree::first_diff(&want, &got, CmpOpts { root_meta: true, dir_mtime: false, identity: false, mtime: true }) {
+            fail!(
+                format!("C10/untouched-file-not-restored-exactly/hunk/{}/probe-many-hunks/{field}", d.name()),
+                "after {} of {f}: {msg}",
+                d.name()
+            );
+        }
+        let v = ops::validate(&w.arch, &None, true);
+        no_panic(&v, "validate", &f, d)?;
+        ensure!(
+            v.reported_error(),
+            format!("C10/probe-many-hunks/validate-silent/{}", d.name()),
+            "quick validate silent after {} of {f}",
+            d.name()
+        );
+        cx.add_evals(1);
+        cx.inner_nontrivial += 1;
+    }
+    crate::engine::force_remove(&sub);
+    // --- big blocks: a bit flip in the middle of a 6 MiB block that still decompresses
+    let (opts, tree) = crate::probes::big_blocks_tree();
+    let sub = cx.dir("big-blocks");
+    std::fs::create_dir_all(sub.join("r")).unwrap();
+    let w = World::new(&sub, &tree);
+    let b = ops::backup(&w.arch, &None, &w.src, opts, &[]);
+    ensure!(!ops::backup_reported_error(&b), "C10/probe-setup", "{}", b.describe());
+    let pristine = sub.join("pristine");
+    copy_dir(&w.arch, &pristine);
+    let pre = format::scan(&pristine);
+    let big = pre.bands[&0].all_entries().into_iter().find(|e| e.apath == "/big6m").unwrap().clone();
+    let f = format!("d/{}/{}", &big.addrs[0].hash[..3], big.addrs[0].hash);
+    for frac in [0x8000u16, 0x4321, 0xF00F] {
+        crate::engine::heartbeat();
+        crate::engine::force_remove(&w.arch);
+        copy_dir(&pristine, &w.arch);
+        let d = Dmg::Flip(frac);
+        ensure!(damage::apply(&w.arch, &f, d), "C10/harness/probe", "flip did not apply");
+        n += 1;
+        let dest = sub.join("r").join(format!("b{n}"));
+        let r = ops::restore(&w.arch, &None, &dest, &Sel::Band(0), None, &[], false);
+        no_panic(&r, "restore", &f, d)?;
+        let got = std::fs::read(dest.join("big6m")).ok();
+        let want = tree::content_bytes(3, 6 << 20);
+        let named = r.monitor_errors.iter().any(|m| m.contains("Apath(\"/big6m\")"));
+        crate::engine::force_remove(&dest);
+        ensure!(
+            got.as_deref() == Some(&want[..]) || named,
+            "C10/file-lost-or-altered-silently/block/bitflip/probe-big-blocks",
+            "a bit flip (position fraction {frac:#x}) in the 6 MiB block of /big6m: the file did not restore to its content and no reported error names it ({})",
+            r.describe()
+        );
+        cx.add_evals(1);
+        cx.inner_nontrivial += 1;
+    }
+    crate::engine::force_remove(&sub);
+    Ok(())
+}
+
 pub fn prop() -> Prop<Case> {
     Prop {
         id: "C10",
         level: "fault_enumeration",
-        rule: "case = archive from a generated history of <=5 ops (incl. interrupted backups) + 3-7 bit-flip positions; inner domain enumerated: every stored file (heads, tails, hunks, blocks; the archive header only for a clean-failure probe) x {delete, truncate 0, truncate half, garbage of equal length} + the generated bit flips in every file (thorough: all pairs; quick: an evenly spaced third, at most 48 per archive). For each: versions, ls and restore of every band, validate (full, quick), a new backup and its restore must return without panic (listing length bounded by the archive's entry count; per-case watchdog for hangs). In every band whose head still parses and whose restore ran: every file entry of the pre-damage reference listing whose own hunk file and block files are not the damaged file (and, for entries stitched from an older band, whose band's head/tail are not the damaged file) must restore byte- and mtime-exact; every file entry whose hunk or block is, by the independent decoder, now missing or undecodable requires that restore reported an error, and a file whose block was damaged and which does not restore to its recorded content must be named by a reported error (per file, so that an error for one file of a shared block does not excuse silently altered siblings) (deletion of the last hunk of an incomplete band is exempt: indistinguishable from an earlier interruption). After delete/truncate-0 a new backup must succeed and restore the source exactly. Non-trivial inner = the damaged file is referenced by at least one version; inner values distinct by construction",
+        rule: "case = archive from a generated history of <=5 ops (incl. interrupted backups) + 3-7 bit-flip positions; inner domain enumerated: every stored file (heads, tails, hunks, blocks; the archive header only for a clean-failure probe) x {delete, truncate 0, truncate half, garbage of equal length} + the generated bit flips in every file (thorough: all pairs; quick: an evenly spaced third, at most 48 per archive). For each: versions, ls and restore of every band, validate (full, quick), a new backup and its restore must return without panic (listing length bounded by the archive's entry count; per-case watchdog for hangs). In every band whose head still parses and whose restore ran: every file entry of the pre-damage reference listing whose own hunk file and block files are not the damaged file (and, for entries stitched from an older band, whose band's head/tail are not the damaged file) must restore byte- and mtime-exact; every file entry whose hunk or block is, by the independent decoder, now missing or undecodable requires that restore reported an error, and a file whose block was damaged and which does not restore to its recorded content must be named by a reported error (per file, so that an error for one file of a shared block does not excuse silently altered siblings) (deletion of the last hunk of an incomplete band is exempt: indistinguishable from an earlier interruption). After delete/truncate-0 a new backup must succeed and restore the source exactly. Non-trivial inner = the damaged file is referenced by at least one version; inner values distinct by construction. Fixed scale probes per run: hunks 9 999, 10 000, 10 001 and 5 of a 10 015-hunk version deleted/garbled/emptied (restore must report, restore everything else exactly, quick validate must report), and three bit flips inside a 6 MiB block",
         assumptions: &[
             "'reported an error' is lenient: Err, Monitor error, or ERROR-level tracing event",
             "hunks altered but still decodable carry only the no-crash obligation",
@@ -326,7 +427,7 @@ pub fn prop() -> Prop<Case> {
         cases: |t| t.pick(64, 800),
         strategy,
         run,
-        enumerate: None,
+        enumerate: Some(enumerate),
         exhaustive: |_| false,
         max_shrink_iters: 12,
     }
